@@ -3,6 +3,7 @@
 package main
 
 import (
+	"strconv"
 	"bytes"
 	"encoding/binary"
 	"errors"
@@ -248,6 +249,21 @@ type vfSockCase struct {
 	// Tail: the connection dies inside a frame: this many bytes (at most all but one) of one more frame, different
 	// from the last complete one, are sent before the connection closes. It must not be delivered.
 	Tail int `json:"tail,omitempty"`
+	// Wide: motion settings that a fixed-threshold detector ignores are written out with five digits (a longer
+	// motion-configuration text in the recordings' headers)
+	Wide bool `json:"wide,omitempty"`
+	// SilenceAt/SilenceBytes/SilenceMs (lock-step streams): before item SilenceAt (1-based; a frame or a marker)
+	// the sender first delivers SilenceBytes bytes of it, goes silent for SilenceMs, then carries on
+	SilenceAt    int `json:"silence_at,omitempty"`
+	SilenceBytes int `json:"silence_bytes,omitempty"`
+	SilenceMs    int `json:"silence_ms,omitempty"`
+}
+
+func (c vfSockCase) motionConf() vfMotionOv {
+	if c.Wide {
+		return vfWideMotion(c.Trigger, c.Edge)
+	}
+	return vfSimpleMotion(c.Trigger, c.Edge)
 }
 
 // makeOut creates the output directory of the case below dir and returns its path (as written to config.toml).
@@ -389,7 +405,7 @@ func vfRunSock(c vfSockCase) *vfSockOut {
 	defer os.RemoveAll(dir)
 	out := c.makeOut(dir)
 	conf := vfConf{DeviceName: "sock", Min: c.Min, Max: c.Max, Prev: c.Prev, Cont: c.Cont, MinDiskMB: 1, BucketS: 600, RefillS: 600,
-		WinStart: "12:00", WinEnd: "12:00", Motion: vfSimpleMotion(c.Trigger, c.Edge)}
+		WinStart: "12:00", WinEnd: "12:00", Motion: c.motionConf()}
 	if err := vfWriteConfig(dir, out, conf); err != nil {
 		panic(err)
 	}
@@ -439,9 +455,21 @@ func vfRunSock(c vfSockCase) *vfSockOut {
 	}
 	o.accepted = id
 	if len(c.Chunks) == 0 {
-		for _, s := range segs {
+		for si, s := range segs {
 			var err error
-			if s.frameEnd {
+			if c.SilenceMs > 0 && si == c.SilenceAt && si > 0 {
+				n := c.SilenceBytes
+				if n > len(s.b)-1 {
+					n = len(s.b) - 1
+				}
+				if n > 0 {
+					err = conn.Write(s.b[:n])
+					s.b = s.b[n:]
+				}
+				time.Sleep(time.Duration(c.SilenceMs) * time.Millisecond)
+			}
+			if err != nil {
+			} else if s.frameEnd {
 				err = conn.SendFrame(s.b, nil)
 			} else {
 				err = conn.Write(s.b)
@@ -613,6 +641,7 @@ func vfGenSockBase(t *rapid.T, bad, clear bool) vfSockCase {
 	c.OutName = rapid.SampledFrom(vfOutNames).Draw(t, "outname")
 	c.OutLink = rapid.SampledFrom([]int{0, 0, 0, 0, 1, 2}).Draw(t, "outlink")
 	c.Tail = rapid.SampledFrom([]int{0, 0, 0, 1, 4, 5, 6, 64, 1 << 20}).Draw(t, "tail")
+	c.Wide = rapid.IntRange(0, 2).Draw(t, "wide") == 0
 	nseg := rapid.IntRange(2, 8).Draw(t, "nseg")
 	for s := 0; s < nseg; s++ {
 		switch rapid.IntRange(0, 6).Draw(t, "seg") {
@@ -1031,4 +1060,54 @@ func TestVF_C14_Reconnects(t *testing.T) {
 	kit.Drive(t, "C14", "TestVF_C14_Reconnects",
 		"generated: 2-70 successive camera connections to one recorder process (as after camera daemon restarts), each with a header and 0-3 frames, fps from {1,2,4,8,9,16,30,60}, alternating between two cameras of different model, resolution and frame size. Oracle: every connection is served like the first: the header is accepted, every frame is delivered to the processor exactly once, handleConn ends with a clean EOF, nothing panics. Non-trivial: at least 25 connections.",
 		vfGenReconn, vfRunReconn)
+}
+
+
+// TestVF_C14_Silence: the camera daemon goes silent for a while (as it does while it restarts the camera) before
+// a marker, before a frame or inside either, then carries on: alignment, delivery and the reset must be as ever.
+func vfGenC14Silence(t *rapid.T) vfSockCase {
+	c := vfSockCase{Cam: vfCamDesc{Brand: "flir", Firmware: "1.2.3", Serial: 77, W: 10, H: 8, FPS: 3}, Min: 1, Max: 2, Prev: 1, Trigger: 1, Edge: 1, Cont: true}
+	c.Cam.Model = rapid.SampledFrom([]string{"lepton3", "boson"}).Draw(t, "model")
+	// quiet, a motion recording in progress, the silence, then a marker and more frames
+	for i := 0; i < 4; i++ {
+		c.Items = append(c.Items, vfItem{K: vfItFrame})
+	}
+	c.Items = append(c.Items, vfItem{K: vfItFrame, On: true}, vfItem{K: vfItFrame, On: true})
+	c.SilenceAt = len(c.Items) + 1 // segment 0 is the header
+	if rapid.Bool().Draw(t, "beforemarker") {
+		c.Items = append(c.Items, vfItem{K: vfItClear})
+		c.SilenceBytes = rapid.SampledFrom([]int{0, 1, 4}).Draw(t, "markerbytes")
+	} else {
+		c.Items = append(c.Items, vfItem{K: vfItFrame, On: true}, vfItem{K: vfItClear})
+		c.SilenceBytes = rapid.SampledFrom([]int{0, 1, 4, 5, 6, 80}).Draw(t, "framebytes")
+	}
+	for i := 0; i < 7; i++ {
+		c.Items = append(c.Items, vfItem{K: vfItFrame, On: i == 3})
+	}
+	size := c.Max*c.Cam.FPS + 1
+	n := 0
+	for _, it := range c.Items {
+		if it.K == vfItFrame {
+			n++
+		}
+	}
+	for n%size != 0 {
+		c.Items = append(c.Items, vfItem{K: vfItFrame})
+		n++
+	}
+	secs := 12
+	if v, err := strconv.Atoi(os.Getenv("VERIF_SILENCE_S")); err == nil && v > 0 {
+		secs = v
+	}
+	c.SilenceMs = secs*1000 + 500
+	return c
+}
+
+func TestVF_C14_Silence(t *testing.T) {
+	kit.Drive(t, "C14", "TestVF_C14_Silence", "generated: a stream with a motion recording in progress in which the sender goes silent for 12.5 s (65.5 s in the thorough tier) before or inside a 'clear' marker or a frame, then carries on; same oracle as TestVF_C14_Socket. Every case counts as non-trivial.",
+		vfGenC14Silence, func(c vfSockCase) *kit.Result {
+			r := vfRunC14SockInner(c)
+			r.NT = true
+			return r
+		})
 }
